@@ -155,7 +155,7 @@ def contract_lines_of_model(beh, c):
     out = [{"k": "cfg", "grace": c["grace"], "dropping": c["dropping"], "bounded": c["bounded"]},
            {"k": "sink", "s": "S0", "lvl": 0, "tw": [], "tf": []}]
     for l in c.get("loggers", ["L0"]):
-        out.append({"k": "logger", "lg": l, "sinks": ["S0"], "lvl": 0, "sys": True, "fresh": True})
+        out.append({"k": "logger", "lg": l, "sinks": ["S0"], "fsinks": [], "lvl": 0, "sys": True, "fresh": True})
     for h in beh:
         if h["k"] != "step":
             if h["k"] == "write":
